@@ -190,7 +190,49 @@ class EdgeStep(Family):
                 ('advances-p1', b_and(fsame(O['p1x'], I['p2x']), fsame(O['p1y'], I['p2y'])))]
 
 
+def wrapper_points_inside(tier):
+    """gutils.points_inside_polygon hands the kernel a zeroed answer vector (also when the caller supplies a used one), the points and
+    the polygon unchanged; Grid.cells_inside_polygon tests the centre of EVERY cell of the grid"""
+    import numpy as np
+    from hydrodiy.gis import gutils, grid as G
+    from engine.contracts import Recorder, patched_module
+    out = []
+    poly = np.array([[0.2, 0.1], [3.7, 0.4], [2.2, 2.9]])
+    pts = np.array([[1.0, 1.0], [9.0, 9.0], [2.0, 0.5]])
+    for given in (None, 'ones'):
+        rec = Recorder()
+        inside = None if given is None else np.ones(3, dtype=np.int32)
+        with patched_module(gutils, 'c_hydrodiy_gis', rec):
+            gutils.points_inside_polygon(pts, poly, inside=inside)
+        c = rec.calls[-1]
+        tag = dict(supplied=given)
+        out.append(('answer-vector-zeroed', np.all(c.args[4] == 0) and len(c.args[4]) == 3, dict(tag, got=list(map(int, c.args[4])))))
+        out.append(('points-and-polygon-passed', np.array_equal(c.args[2], pts) and np.array_equal(c.args[3], poly), tag))
+        out.append(('atol-default', float(c.args[0]) == 1e-8, tag))
+    for (nr, nc) in [(2, 2), (2, 5), (5, 2), (1, 4)]:
+        g = G.Grid('g', nc, nr, cellsize=0.5, xllcorner=-1.0, yllcorner=2.0)
+        rec = Recorder()
+        with patched_module(gutils, 'c_hydrodiy_gis', rec):
+            try:
+                g.cells_inside_polygon(poly)
+            except Exception:
+                pass
+        c = [c for c in rec.calls if c.name == 'points_inside_polygon'][-1]
+        want = np.array([[-1.0 + 0.5 * (k % nc + 0.5), 2.0 + 0.5 * (nr - 1 - k // nc + 0.5)] for k in range(nr * nc)])
+        out.append(('every-cell-centre-tested', c.args[2].shape == want.shape and np.allclose(c.args[2], want), dict(nrows=nr, ncols=nc, got_points=len(c.args[2]))))
+    return out
+
+
+CONTRACTS = [wrapper_points_inside]
+
+
+def contracts_part(tier, seed, workdir):
+    from engine.contracts import run_contracts
+    return run_contracts('C15', 'harness.C15', CONTRACTS, tier)
+
+
 FAMILIES = [Inside(), EdgeStep()]
+PARTS = [contracts_part]
 
 META = dict(
     explanation='bounded symbolic execution of the LLVM IR of c_inside with all vertex and point coordinates symbolic and the extent computed as the '
